@@ -8,6 +8,17 @@ def replay(args, outdir):
     if lemma == 'L1_fill_range':
         clause = S.check_fill_range(B.fill_range, a['start'], a['span'], a['step'])
         desc = 'fill_range(%d,%d,%d)' % (a['start'], a['start'] + a['span'], a['step'])
+    elif lemma == 'L5_local_bin_size_unbounded':
+        # concrete stretch / bin size from the solver: run the real function on one blacklist-free region of that length
+        st = a.get('start', 0) - a.get('current', 0)
+        bsz = a.get('bin_size', 1)
+        if st > 5_000_000:
+            return dict(reproduced=False, note='stretch too long to enumerate the bins concretely')
+        try:
+            clause = S.check_tiling(B.blacklisted_binning, 0, st, bsz, [], None)
+        except Exception as e:
+            clause = 'raises.' + type(e).__name__
+        desc = 'blacklisted_binning(0,%d,bin_size=%d)' % (st, bsz)
     elif lemma == 'L6_bp_chunked':
         clause = S.check_bp_chunked(bp_chunked, [a['z0'], a['z1'], a['z2'], a['z3']][:a['n']], a['bp'])
         desc = 'bp_chunked %r' % a
